@@ -8,6 +8,31 @@ PY = "/venv/bin/python"
 
 # id -> (technique, level text, level note, design ref)
 CHECKS = {
+    "C01": ("exhaustive sweep (n<=3 all signs; n<=5 in thorough) + class-stratified constructed members (n=5,6) + Hypothesis over formats/bases/circuit inputs, vs. dense state-vector simulation",
+            "Every returned preparation circuit is simulated by a from-scratch dense simulator and every given signed operator must stabilise the "
+            "result. Quick enumerates all groups for n<=3 with all sign vectors and all 2295 four-qubit groups; thorough enumerates all groups n<=4 "
+            "with all sign vectors and all 75 735 five-qubit groups on all configurations; n=6 is covered by constructed members of all 760 classes "
+            "on all 7 configurations. Exhaustive on the enumerated part, sampled (stratified, every class x configuration hit) beyond it.",
+            "Trusted: dense simulator (literal matrices); qiskit's instruction reporting. Six-qubit groups, generator bases and formats are sampled.",
+            "DESIGN.md §4 C01"),
+    "C02": ("generated circuits of every API kind (stratified members, all MUB circuits, Hypothesis ordered qubit subsets) inspected against a transcribed edge table",
+            "Instruction lists of preparation, readout, compressed, MUB, tomography and stabilizer-measurement circuits are checked against an edge "
+            "table typed in from the documentation; coupling graphs and MUB circuits exhaustively, the others for at least one member of every "
+            "(configuration, class) and for Hypothesis-drawn ordered subsets of registers up to 8 qubits.",
+            "Trusted: transcription of the documented coupling graphs; sampled members / subsets.",
+            "DESIGN.md §4 C02"),
+    "C03": ("exhaustive sweep (n<=4 quick, n<=5 thorough) + class-stratified members, vs. symplectic propagation of all 2^n group elements; metamorphic sign-independence",
+            "All 2^n signed elements of every generated group are conjugated through the returned readout circuit with independently validated "
+            "rules; the X part must vanish. The same generators with another sign vector must give the identical instruction list, and the inverse "
+            "circuit is dense-simulated. Exhaustive for n<=4 (quick) / n<=5 (thorough), stratified for n=6.",
+            "Trusted: bitmask conjugation rules (checked against dense matrices each run).",
+            "DESIGN.md §4 C03"),
+    "C04": ("metamorphic: constructed members of one LC class must agree with each other and with lookup metadata (own gate counter / ASAP depth)",
+            "For every (configuration, class) several members with independent local Cliffords, bases and signs are sent through preparation, "
+            "readout and compression; two-qubit count, depth and the multiset of two-qubit instructions must equal the metadata / table line "
+            "of the class determined by the independent LC oracle.",
+            "Trusted: LC-orbit oracle, own gate counter; members are sampled (every class x configuration hit in every run).",
+            "DESIGN.md §4 C04"),
     "C06": ("exhaustive enumeration of all stabilizer groups (n<=5 quick, n<=6 thorough) + class-stratified construction vs. LC-orbit oracle (bijection id <-> orbit)",
             "Quick visits every stabilizer group on 2..5 qubits and ~50k constructed six-qubit groups covering all 760 orbits; thorough "
             "enumerates all 4 922 775 six-qubit groups. The partition induced by the library's id must equal the partition into "
